@@ -1,3 +1,4 @@
+import re
 """C08 -- Stringify then Parse returns the same tree; the text is valid JSON (table / structure clauses)."""
 from qlib import astq, tab
 from qlib.bitsym import Unrecognised
@@ -194,6 +195,31 @@ def run(ctx):
                     comma_in_guard = any(f.nodes[x].get("n") == "CommaChar" for x in f.walk(f.nodes[i]["then"])) and \
                         not any(f.nodes[x].get("n") == "CommaChar" for x in f.walk(f.nodes[lp]["body"]) if x not in set(f.walk(f.nodes[i]["then"])))
         r.ob(f.q, "skip Undefined", ok_skip, "members are written only under !isUndefined()", "Include/Value.hpp:%d" % f.line)
+        # ... and under nothing else: every live member is written (a test of the key, the kind or the position would drop members)
+        extra = []
+        for lp in loops:
+            for c_ in astq.calls(f, "stringifyValue", f.nodes[lp]["body"]):
+                x = astq.enclosing(f, c_, ("IfStmt",))
+                while x is not None and x in set(f.walk(f.nodes[lp]["body"])):
+                    atoms = []
+
+                    def flat(nid):
+                        nn = f.nodes[f.strip(nid)]
+                        if nn["k"] == "BinaryOperator" and nn["op"] == "&&":
+                            flat(nn["ch"][0])
+                            flat(nn["ch"][1])
+                        else:
+                            atoms.append(f.text(f.strip(nid)).replace(" ", ""))
+                    flat(f.nodes[x]["cond"])
+                    for a_ in atoms:
+                        if re.match(r"^\(*!\(*[\w.>\-]*isUndefined\(\)\)*$", a_):
+                            continue
+                        if re.match(r"^\(*\w+!=nullptr\)*$", a_):
+                            continue
+                        extra.append(a_)
+                    x = astq.enclosing(f, x, ("IfStmt",))
+        r.ob(f.q, "nothing but Undefined is skipped", not extra, "the member write is guarded by `!isUndefined()` (and a null test) only%s" % (
+             "" if not extra else "; also by %s: live members failing that test are silently dropped from the text" % extra), "Include/Value.hpp:%d" % f.line)
         r.ob(f.q, "comma after emitted member only", comma_in_guard, "',' is written only inside the same guard", "Include/Value.hpp:%d" % f.line)
         # comma patch: if (*last == Comma) *last = close; else stream += close
         patch = False
